@@ -13,6 +13,7 @@ import (
 	"os/exec"
 	"strings"
 	"sync"
+	"sync/atomic"
 	"syscall"
 	"time"
 	"unsafe"
@@ -137,6 +138,7 @@ func main() {
 	}
 	var mu sync.Mutex
 	var stopped bool
+	idle := map[string]*int64{} // per capture loop: how often it found nothing to read
 	var wg sync.WaitGroup
 	_ = &wg
 	// whatever happens, never outlive the caller's patience
@@ -195,6 +197,8 @@ func main() {
 			}
 			syscall.SetsockoptTimeval(fd, syscall.SOL_SOCKET, syscall.SO_RCVTIMEO, &syscall.Timeval{Usec: 20000})
 			name := ifc.Name
+			idleCtr := new(int64)
+			idle[name] = idleCtr
 			done := make(chan struct{})
 			closers = append(closers, func() { close(done) })
 			wg.Add(1)
@@ -211,6 +215,7 @@ func main() {
 					}
 					n, from, err := syscall.Recvfrom(fd, buf, 0)
 					if err != nil || n <= 0 {
+						atomic.AddInt64(idleCtr, 1)
 						continue
 					}
 					// only frames arriving at the peer (i.e. transmitted on the sx side of the pair)
@@ -236,6 +241,8 @@ func main() {
 				return
 			}
 			name := ifc.Name
+			idleCtr := new(int64)
+			idle[name] = idleCtr
 			closers = append(closers, func() { f.Close() })
 			wg.Add(1)
 			go func() {
@@ -243,6 +250,13 @@ func main() {
 				buf := make([]byte, 65536)
 				seen := 0
 				for {
+					var rset syscall.FdSet
+					fd := int(f.Fd())
+					rset.Bits[fd/64] |= 1 << (uint(fd) % 64)
+					if nr, _ := syscall.Select(fd+1, &rset, nil, nil, &syscall.Timeval{Usec: 20000}); nr <= 0 {
+						atomic.AddInt64(idleCtr, 1)
+						continue
+					}
 					n, err := f.Read(buf)
 					if err != nil {
 						// EBADFD while the device is still down: try again shortly
@@ -334,7 +348,23 @@ func main() {
 		rep.TimedOut, rep.Exit = true, -9
 	}
 	rep.WallMs = time.Since(t0).Milliseconds()
-	time.Sleep(40 * time.Millisecond)
+	// drain: every capture loop must have found its socket empty at least twice after sx exited (bounded by 5 s)
+	base := map[string]int64{}
+	for n, c := range idle {
+		base[n] = atomic.LoadInt64(c)
+	}
+	for deadline := time.Now().Add(5 * time.Second); time.Now().Before(deadline); {
+		all := true
+		for n, c := range idle {
+			if atomic.LoadInt64(c) < base[n]+2 {
+				all = false
+			}
+		}
+		if all {
+			break
+		}
+		time.Sleep(5 * time.Millisecond)
+	}
 	mu.Lock()
 	stopped = true
 	mu.Unlock()
